@@ -9,7 +9,9 @@ var (
 	HostsAddrs = []string{"1.2.3.4", "::1", "fe80::1%eth0", "::ffff:1.2.3.4", "256.1.1.1", "1.2.3", "localhost", "1.2.3.4.5", ":::1", "fe80::1%", "01.2.3.4", "0.0.0.0", "1:2:3:4:5:6:7:8", "[::1]", "1.2.3.4/8", "１.2.3.4", "FE80::A"}
 	HostsNames = []string{"host", "a.b", "bad._host", "-a.com", "a..b", "x.123", "é.com", "\xff.com", "a\r", "a\r.com", "a\v.b", "nb sp.com", "_srv.tcp.x", "UPPER.Case", "xn--e1afmkfd.com",
 		"1", "com.", ".", "Über.example", "good.host", "h", "a-", "localhost", "x.y.z.w", "a_b.c", "*.wild.com", "a/b",
-		"xn--0.example", "xn--.example", "www.xn--a_b.example", "1abc.xn--4dbrk0ce", "xn--bcher-kva.example"}
+		"xn--0.example", "xn--.example", "www.xn--a_b.example", "1abc.xn--4dbrk0ce", "xn--bcher-kva.example",
+		// runes whose lower-case form has another byte length (Kelvin sign, dotted capital I, capital sharp s, ohm and angstrom signs)
+		"\u212a.example", "\u0130\u1e9e.example", "\u2126\u212b\u017f.x"}
 	HostsSeps   = []string{" ", "\t", "  ", " \t ", "\t\t", "\v", "\r", " ", "\f", " \t\t  "}
 	HostsLeads  = []string{"", " ", "\t ", "\r", "\v", " ", "\f", "\ufeff", "\ufeff "}
 	HostsTrails = []string{"", " ", "\t", "\r", "\r\r", " #c", "#c", " # c # d", "\v", "\f", " ", " \t ", "#", "\t#\t1.2.3.4 x"}
